@@ -188,6 +188,141 @@ def check_heater_setters(ctx, repo):
     ctx.floor("R5", "heater setters analysed", n_ok, 2)
 
 
+def presented_value_follows_the_block(ctx, repo, rule):
+    """A GeckoSensor on a real temperature item (and one on a plain byte item) built by the constructors on a model
+    structure; the block is then replaced the way the structure does it - new bytes, then status_block_changed on every
+    item - for (a) a unit flip with the temperature word unchanged, (b) a word change, (c) a byte change.  What the sensor
+    presents afterwards must be what the item decodes from the new block."""
+    from ..absint import ClassRef, Native, Obj
+    from ..facademodel import Rec, model_facade
+    gc = repo.cls("GeckoConstants")
+    KEY = repo.fold(gc.consts["KEY_TEMP_UNITS"], gc.mod, gc)
+
+    def block(unit_bit, word, byte):
+        b = bytearray(64)
+        b[13] = 0x04 if unit_bit else 0
+        b[15], b[16] = word >> 8, word & 0xFF
+        b[20] = byte
+        return bytes(b)
+    n = 0
+    for label, before, after in (("unit-flips-word-unchanged", block(0, 675, 7), block(1, 675, 7)), ("word-changes", block(0, 675, 7), block(0, 700, 7)),
+                                 ("unit-flips-back", block(1, 675, 7), block(0, 675, 7)), ("byte-changes", block(0, 675, 7), block(0, 675, 9))):
+        it = Interp(repo, max_depth=14)
+        st = Obj(None, {"status_block": before, "accessors": {}}, name="struct")
+        try:
+            units = it.apply(ClassRef(repo.cls("GeckoEnumStructAccessor")), [st, KEY, 13, 2, ["C", "F"], None, 2, "ALL"], {})
+            temp = it.apply(ClassRef(repo.cls(ACC)), [st, "SetpointG", 15, "ALL"], {})
+            byte = it.apply(ClassRef(repo.cls("GeckoByteStructAccessor")), [st, "SomeByte", 20, "ALL"], {})
+            accs = {KEY: units, "SetpointG": temp, "SomeByte": byte}
+            st.attrs["accessors"] = accs
+            fac, _spa = model_facade(Rec(), accs, struct=st)
+            s_temp = it.apply(ClassRef(repo.cls("GeckoSensor")), [fac, "Target", temp, units], {})
+            s_byte = it.apply(ClassRef(repo.cls("GeckoSensor")), [fac, "Some byte", byte], {})
+            first = (it.getattr(s_temp, "state"), it.getattr(s_byte, "state"))
+            st.attrs["status_block"] = after
+            for a in (units, temp, byte):
+                it.steps = 0
+                it.call(repo.method("GeckoStructAccessor", "status_block_changed"), a, [0, 64, before])
+            got = (it.getattr(s_temp, "state"), it.getattr(s_byte, "state"), it.getattr(s_temp, "unit_of_measurement"))
+            want = (it.getattr(temp, "value"), it.getattr(byte, "value"), it.getattr(units, "value"))
+        except PyRaise as e:
+            got, want, first = f"raises {e.what}", None, None
+        except Undecided as e:
+            raise AnalysisError(f"GeckoSensor on real items ({label}): {e}")
+        n += 1
+        ctx.ob(rule, f"GeckoSensor::{label}::presents-what-the-item-decodes", got == want and want is not None,
+               f"GeckoSensor after {label.replace('-', ' ')}: presents (temperature, byte, unit) = {got}, while the items decode {want} from the new block (before the change it showed {first}): "
+               f"the value a client reads back after the spa's echo is not the spa's", repo.method("GeckoSensor", "state").loc,
+               sample={"rule": rule, "case": label, "presented": str(got)})
+    ctx.floor(rule, "sensor block updates interpreted", n, 4)
+
+
+def flag_sensors_on_shipped_items(ctx, repo, rule):
+    """The heating / cooling flags as the shipped tables define them (a Bool item on some platforms, a 2-bit enum whose
+    three non-empty labels all say 'Heating' on others): a GeckoBinarySensor built by its constructor on the REAL item
+    over real bytes, for every raw value of the field, reads is_on == (the decoded value is a non-empty label other than
+    'OFF' / the flag is set)."""
+    from ..absint import ClassRef, Obj
+    from ..facademodel import Rec, model_facade
+    from ..packs import tables
+    T = tables(repo)
+    gc = repo.cls("GeckoConstants")
+    keys = [repo.fold(gc.consts[k], gc.mod, gc) for k in ("KEY_HEATING", "KEY_COOLINGDOWN")]
+    shapes = {}
+    for stem, m in sorted(T.modules.items()):
+        for k in keys:
+            it_ = m.item(k)
+            if it_ is not None:
+                shapes.setdefault((k, it_.ctor, repr(it_.args[1:])), (it_, stem))
+    ctx.floor(rule, "distinct heating / cooling flag item shapes in the shipped tables", len(shapes), 2)
+    n = 0
+    for (k, ctor, _a), (item, stem) in sorted(shapes.items()):
+        g = T.geometry(item)
+        pos, ln = g["pos"], g["length"]
+        width = (g["bitmask"].bit_length() if g.get("bitmask") else 8 * ln)
+        shift = g.get("bitpos") or 0
+        for raw in range(min(1 << width, 16)):
+            it = Interp(repo, max_depth=12)
+            blk = bytearray(1024)
+            word = raw << shift
+            for i in range(ln):
+                blk[pos + ln - 1 - i] = (word >> (8 * i)) & 0xFF
+            st = Obj(None, {"status_block": bytes(blk), "accessors": {}}, name="struct")
+            try:
+                acc = it.apply(ClassRef(repo.cls(ctor)), [st] + list(item.args), {})
+                st.attrs["accessors"] = {k: acc}
+                fac, _spa = model_facade(Rec(), {k: acc}, struct=st)
+                sensor = it.apply(ClassRef(repo.cls("GeckoBinarySensor")), [fac, k, acc], {})
+                decoded = it.getattr(acc, "value")
+                got = it.getattr(sensor, "is_on")
+            except PyRaise as e:
+                decoded, got = "?", f"raises {e.what}"
+            except Undecided as e:
+                raise AnalysisError(f"GeckoBinarySensor on {stem}::{k} (raw {raw}): {e}")
+            want = decoded if isinstance(decoded, bool) else (isinstance(decoded, str) and decoded not in ("", "OFF", "Unknown"))
+            n += 1
+            ctx.ob(rule, f"GeckoBinarySensor.is_on::{k}::{ctor}::raw={raw}", got is want or got == want,
+                   f"GeckoBinarySensor on {k} as {stem} defines it ({ctor}, labels {g.get('items')}): raw value {raw} decodes to {decoded!r} but is_on reads {got!r} - the heater's operation "
+                   f"would contradict a raised {k} flag", repo.method("GeckoBinarySensor", "is_on").loc, sample={"rule": rule, "item": f"{stem}::{k}", "raw": raw, "decoded": str(decoded), "is_on": str(got)} if raw == 2 else None)
+    ctx.floor(rule, "flag raw values interpreted", n, 6)
+
+
+def exact_read_back(ctx, repo, rule, readers=None, writers=None):
+    """writer(reader(raw)) == raw for every 16-bit word, both units, both writers - on the float programs the interpreter
+    extracted from the reader and the writers (same operations, order and constants)"""
+    if readers is None or writers is None:
+        readers, writers = {}, {}
+        for u in ("C", "F"):
+            try:
+                readers[u] = run_reader(repo, u)
+                for method in ("_set_value", "async_set_value"):
+                    writers[(method, u)] = run_writer(repo, method, u)
+            except (PyRaise, Undecided) as e:
+                raise AnalysisError(f"{ACC} float programs ({u}): {e}")
+    n_rb = 0
+    for method in ("_set_value", "async_set_value"):
+        for u in ("C", "F"):
+            w, rd = writers.get((method, u)), readers.get(u)
+            if not (isinstance(w, Affine) and isinstance(rd, Affine)) or w.fn is None or rd.fn is None:
+                ctx.error(f"{ACC}.{method} ({u}): float program not available (value did not flow from the symbolic input)")
+                continue
+            bad = []
+            for raw in range(65536):
+                try:
+                    back = w.fn(rd.fn(raw))
+                except Exception as ex:  # noqa: BLE001
+                    back = f"raises {ex}"
+                if back != raw:
+                    bad.append((raw, back))
+            n_rb += 65536
+            inrange = [x for x in bad if 270 <= x[0] <= 720]
+            ctx.ob(rule, f"{method}::{u}::exact-read-back", not bad,
+                   f"{ACC}.{method} in unit {u}: {len(bad)} of the 65 536 representable words do not read back exactly in IEEE doubles "
+                   f"({len(inrange)} inside the heater range), e.g. word {bad[0][0] if bad else ''} is presented as {rd.fn(bad[0][0]) if bad else ''} and written back as {bad[0][1] if bad else ''}",
+                   repo.own_method(ACC, method).loc, sample={"rule": rule, "writer": method, "unit": u, "words": 65536, "mismatches": len(bad)})
+    ctx.floor(rule, "word round trips evaluated", n_rb, 4 * 65536)
+
+
 def check(ctx):
     repo = Repo()
     ctx.rule("R5", "heater setters are pass-through: set_target_temperature / async_set_target_temperature hand the caller's value unchanged to the accessor's setter on every path from entry")
@@ -241,28 +376,7 @@ def check(ctx):
     # float program each of them performs (same operations, same order, same constants) is now run on every one of the
     # 65 536 raw words:  writer(reader(raw)) == raw
     ctx.rule("R6", "exact read-back in floating point: for every raw word 0..65535, both units and both writers, writing the value the reader presents for that word yields the same word again (the readers'/writers' own float programs, extracted by the interpreter, evaluated exhaustively)")
-    n_rb = 0
-    for method in ("_set_value", "async_set_value"):
-        for u in ("C", "F"):
-            w, rd = writers.get((method, u)), readers.get(u)
-            if not (isinstance(w, Affine) and isinstance(rd, Affine)) or w.fn is None or rd.fn is None:
-                ctx.error(f"{ACC}.{method} ({u}): float program not available (value did not flow from the symbolic input)")
-                continue
-            bad = []
-            for raw in range(65536):
-                try:
-                    back = w.fn(rd.fn(raw))
-                except Exception as ex:  # noqa: BLE001
-                    back = f"raises {ex}"
-                if back != raw:
-                    bad.append((raw, back))
-            n_rb += 65536
-            inrange = [x for x in bad if 270 <= x[0] <= 720]
-            ctx.ob("R6", f"{method}::{u}::exact-read-back", not bad,
-                   f"{ACC}.{method} in unit {u}: {len(bad)} of the 65 536 representable words do not read back exactly in IEEE doubles "
-                   f"({len(inrange)} inside the heater range), e.g. word {bad[0][0] if bad else ''} is presented as {rd.fn(bad[0][0]) if bad else ''} and written back as {bad[0][1] if bad else ''}",
-                   repo.own_method(ACC, method).loc, sample={"rule": "R6", "writer": method, "unit": u, "words": 65536, "mismatches": len(bad)})
-    ctx.floor("R6", "word round trips evaluated", n_rb, 4 * 65536)
+    exact_read_back(ctx, repo, "R6", readers, writers)
 
     # ---- R8 the temperature item on real bytes -------------------------------------------------------------
     ctx.rule("R8", "the temperature item end to end on real bytes: unit item and temperature item built by their constructors on a model structure - for words across the whole 16-bit range (incl. >= 32768) and both units the item presents exactly raw/18 or (raw+320)/10, and writing that value through either writer hands the same word to the device write")
@@ -304,6 +418,10 @@ def check(ctx):
                    f"writing {want!r} (unit {unit}) through both writers hands {writes} to the device write, expected (15, 2, {raw}) twice", repo.own_method(ACC, "_set_value").loc)
     ctx.floor("R8", "temperature words on real bytes", n8, 18)
 
+    ctx.rule("R10", "the flags as shipped: for every shape the Heating / CoolingDown items have in any shipped table (Bool, or a 2-bit enum with three 'Heating' labels) and every raw value of the field, a GeckoBinarySensor on the real item reads on exactly when the decoded value says so")
+    flag_sensors_on_shipped_items(ctx, repo, "R10")
+    ctx.rule("R9", "what is presented follows the block: a sensor on a temperature item (with its unit item) and one on a byte item, after the block is replaced and every item notified the way the structure does it - unit flip with the word unchanged, word change, byte change - present exactly what the items decode from the new block")
+    presented_value_follows_the_block(ctx, repo, "R9")
     # ---- R7 presentation is pass-through -----------------------------------------------------------
     ctx.rule("R7", "what the heater presents is the converted reading itself: current / target / real target temperature of a GeckoWaterHeater built by its own constructor equal, bit for bit, the value its temperature item decodes (raw/18 is not a whole tenth for 17 words out of 18: any rounding on the way makes write-what-you-read land on another word)")
     interp = Interp(repo)
